@@ -128,4 +128,24 @@ CHECKS = {
   "technique": "Coq proof (state-machine induction) + exact history correspondence (counters, flags) + oracle on extra updates",
   "design_ref": "DESIGN.md §3 C15, notes/C12_C15.md",
  },
+ "C06": {
+  "text": "Coq theorems over an abstract *-ring: nufft_adjoint is the EXACT adjoint of nufft for every shape, coordinate set, oversampling and width (all scalar factors, the real "
+          "apodisation, the centred pad/crop pair proved; the un-normalised FFT pair derived from the DFT-sum oracle; interpolate/gridding pair from C07 as hypothesis); exact periodicity: "
+          "adding N_d to a coordinate adds ceil(os*N_d) to the scaled coordinate and the interpolation window wraps by that; conformance of beta / scale / shift / apodisation formulas. "
+          "Parameter functions and the step structure are run on PrimFloat against the implementation (Kaiser-Bessel values, sinh, twiddles as data).",
+  "note": "Trusted: Coq kernel+vm_compute(PrimFloat); numpy.fft as DFT oracle; the accuracy bound itself (3% at defaults, 0.3% at oversamp 2) and the Toeplitz normal operator are "
+          "VALIDATED NUMERICALLY ONLY against the explicit NUDFT (partial, as the property's accuracy clause is numerical analysis). No axioms.",
+  "technique": "Coq proof (composition of adjoint pairs over an abstract *-ring) + PrimFloat correspondence + numeric NUDFT validation",
+  "design_ref": "DESIGN.md §3 C06, notes/C06_C08.md",
+ },
+ "C08": {
+  "text": "Coq theorems over any *-ring (one spatial axis, arbitrary batch shape, multi-channel, any stride, both modes): the model of _convolve over the recorded scipy specs equals "
+          "y[b,c,p] = sum_i sum_t data[b,i,p*s+off-t] filt[c,i,t] with off = 0 / min(m,n)-1 and the advertised lengths; convolve_data_adjoint and convolve_filter_adjoint (zero-stuffing + "
+          "correlate in the coded adjoint_mode) are the exact adjoints and return the requested shapes; inadmissible shape/stride/channel combinations are rejected. "
+          "Exact Gaussian-integer correspondence for D = 1..3 incl. a malformed stream and the scipy specs themselves.",
+  "note": "Trusted: Coq kernel+vm_compute; scipy.signal convolve/correlate specs (Gallina definitions, checked against the real scipy each run). D = 2,3 and multi_channel=False are tied by exact "
+          "correspondence to the N-D closed form, not proved. No axioms.",
+  "technique": "Coq proof (kernel operators + kernel_adjoint) + exact integer model/implementation correspondence",
+  "design_ref": "DESIGN.md §3 C08, notes/C06_C08.md",
+ },
 }
